@@ -645,6 +645,11 @@ func (s *Server) handleRequest(req *dhcpv4.DHCPv4) (*dhcpv4.DHCPv4, error) {
 		} else if !pool.Contains(requestedIP) {
 			atomic.AddUint64(&s.naksTotal, 1)
 			return s.buildNAK(req, "IP not in pool")
+		} else if !pool.Confirm(mac, requestedIP) {
+			// Only the address this pool holds (or can assign now) for this client may be
+			// confirmed - not another client's address, the gateway, network or broadcast address
+			atomic.AddUint64(&s.naksTotal, 1)
+			return s.buildNAK(req, "IP not offered to this client")
 		}
 	}
 
